@@ -15,10 +15,25 @@ Fixpoint tree_eqb (a b : tree) {struct a} : bool :=
   | _, _ => false
   end.
 
+(* kind 2: a program reading n distinctly named inputs (input i bound to 7 i + 1) once each, in order: whatever the
+   order of the declarations, the int stack ends up holding the n values, the last one read on top
+   (Props/C16: C16_input_order_irrelevant); compared through its length and a polynomial hash, top first *)
+Definition hash_p : Z := 2^61 - 1.
+Definition many_names_expected (n : Z) : Z :=
+  snd (Z.iter n (fun ih => let '(i, h) := ih in (i - 1, (h * 1000003 + (7 * i + 1) mod hash_p) mod hash_p)) (n - 1, 0)).
+
 Definition judge (t : tree) : option (list Z) :=
   match t with
   | L [L (A 0 :: _); L (first :: rest)] =>
     Some [if forallb (tree_eqb first) rest then 0 else 2]
+  | L [L [A 2; A n; _]; L runs] =>
+    if (n <=? 0) || (2000000 <? n) then None else
+    let h := many_names_expected n in
+    Some [if Nat.eqb (length runs) 3 && forallb (fun r => match r with L [A len; A hh] => (len =? n) && (hh =? h) | _ => false end) runs
+          then 0 else 2]
+  | L [L [A 3; _]; L runs] =>
+    (* two DISTINCT names bound to 11 and 22, read in that order: [22; 11] top first, whatever the declaration order *)
+    Some [if Nat.eqb (length runs) 2 && forallb (fun r => match r with L [A 22; A 11] => true | _ => false end) runs then 0 else 2]
   | L [L [A 1; strs; s; _]; o] =>
     (* reuse the C01 judgement on [mode 0; strings; state; []] and require all permutations equal *)
     match judge_c01 (L [L [A 0; strs; s; L []]; o]), o with
